@@ -21,6 +21,9 @@ Layout of the proof (all modules are listed in tools/props.d/C11.json and audite
   last larger entry; swap + reverse lowers the factorial-number-system rank by one), hence
   `perm_coherent`, `perm_len_is_count`, `perm_unfoldsB`.
 
+* `C11Enum`, `C11EnumPerm` (import this file) — the enumeration order: each stream enumerates exactly the
+  Spec's closed form, in that order, for every input length.
+
 This file: the summary statements and the remaining refutations.
 -/
 import NoulithModel.Theorems.C11Inf
@@ -98,7 +101,8 @@ one empty permutation -/
 theorem perm_empty : Unfolds Perm.next (Perm.mk ([] : List Nat)) [[]] :=
   .step rfl (.done rfl)
 
-/-! ## statements that are not proved here (kept at full strength) -/
+/-! ## the enumeration-order statements (proved in C11Enum.lean: `subseqs_enumeration`,
+`tuples_enumeration`, `combs_enumeration`, and C11EnumPerm.lean: `perms_enumeration`) -/
 
 /-- enumeration order: `permutations(xs)` yields the permutations in lexicographic order of positions -/
 def perms_enumeration_statement : Prop :=
